@@ -35,7 +35,7 @@ func OptionsRoundTrip(p *core.Prog, r *core.Report) {
 		switch x := v.(type) {
 		case *ssa.Field:
 			if x.X == ssa.Value(f.Params[0]) {
-				return st.Field(x.Field).Name(), true
+				return core.FieldName(st, x.Field), true
 			}
 		case *ssa.UnOp:
 			if x.Op == token.MUL {
@@ -43,7 +43,7 @@ func OptionsRoundTrip(p *core.Prog, r *core.Report) {
 					if al, ok := fa.X.(*ssa.Alloc); ok {
 						for _, ref := range core.Refs(al) {
 							if s, ok := ref.(*ssa.Store); ok && s.Addr == ssa.Value(al) && s.Val == ssa.Value(f.Params[0]) {
-								return st.Field(fa.Field).Name(), true
+								return core.FieldName(st, fa.Field), true
 							}
 						}
 					}
@@ -105,7 +105,7 @@ func OptionsRoundTrip(p *core.Prog, r *core.Report) {
 					}
 				}
 			}
-			out[st.Field(fa.Field).Name()] = src
+			out[core.FieldName(st, fa.Field)] = src
 		})
 		return out, okAll
 	}
@@ -148,7 +148,7 @@ func OptionsRoundTrip(p *core.Prog, r *core.Report) {
 		}
 	})
 	for k := 0; k < st.NumFields(); k++ {
-		name := st.Field(k).Name()
+		name := core.FieldName(st, k)
 		if replayed[name] {
 			r.OK(rule, "Options:field:"+name, p.Pos(f.Pos()), "replayed by Options()")
 		} else {
